@@ -44,16 +44,24 @@ func (t *KernMethod) InitGovernTokens(ctx contract.KContext) (*contract.Response
 			return nil, fmt.Errorf("init gov tokens failed, parse genesis account error, negative amount")
 		}
 
+		// 设置初始账户的govern token余额; an address listed more than once
+		// receives the sum of its quotas, which is what totalSupply counts
+		key := utils.MakeAccountBalanceKey(ps.Address)
 		balance := utils.NewGovernTokenBalance()
-		balance.TotalBalance = amount
+		balanceOldBuf, err := ctx.Get(utils.GetGovernTokenBucket(), []byte(key))
+		if err == nil {
+			err = json.Unmarshal(balanceOldBuf, balance)
+			if err != nil {
+				return nil, err
+			}
+		}
+		balance.TotalBalance.Add(balance.TotalBalance, amount)
 
 		balanceBuf, err := json.Marshal(balance)
 		if err != nil {
 			return nil, err
 		}
 
-		// 设置初始账户的govern token余额
-		key := utils.MakeAccountBalanceKey(ps.Address)
 		err = ctx.Put(utils.GetGovernTokenBucket(), []byte(key), balanceBuf)
 		if err != nil {
 			return nil, err
